@@ -119,7 +119,12 @@ void check_legal_string (const char *s) {
  */
 char *strput (char *x, char *limit, const char *y) {
 #ifdef HAVE_STPNCPY
-  return stpncpy(x, y, limit - x);
+  char *p = stpncpy (x, y, limit - x);
+  if (p == limit && limit > x)
+    *--p = 0;	/* did not fit: stpncpy() leaves no terminator; truncate like the loop below does */
+  else if (p == limit)
+    p = limit - 1;	/* buffer already full (and terminated by the previous call) */
+  return p;
 #else
   while ((*x++ = *y++))
     {
